@@ -137,6 +137,12 @@ func c09precondition(pre *vCheck, pe *rtc.PredEval, desc string, tb *Tables) {
 	} else if !v {
 		pre.Failf(desc, "Compile returned tables that violate wfTables (the precondition of Tables.Scan): NumSymbols=%d SymbolMap=%v StateMap=%v Dfa=%v Backtrack=%v", tb.NumSymbols, tb.SymbolMap, tb.StateMap, tb.Dfa, tb.Backtrack)
 	}
+	v, why, ok = pe.Eval("mapSorted", tb)
+	if !ok {
+		pre.Failf(desc, "mapSorted could not be evaluated: %s", why)
+	} else if !v {
+		pre.Failf(desc, "Compile returned a symbol map that violates mapSorted (the precondition of Tables.SymbolArr): %v", tb.SymbolMap)
+	}
 }
 
 func TestVerifC09(t *testing.T) {
@@ -144,7 +150,7 @@ func TestVerifC09(t *testing.T) {
 	if perr != nil {
 		t.Fatal(perr)
 	}
-	pre := vNew("C09/scan-precondition", "every table built in the other C09 checks: the predicate wfTables of lex/zz_verif_contracts.go (the assumed precondition of the deductive contract of Tables.Scan) is evaluated on it", false, "Compile")
+	pre := vNew("C09/scan-precondition", "every table built in the other C09 checks: the predicates wfTables and mapSorted of lex/zz_verif_contracts.go (the assumed preconditions of the deductive contracts of Tables.Scan and Tables.SymbolArr) are evaluated on it", false, "Compile")
 	ck := vNew("C09/longest-match", "seeded rule sets of 1..4 rules (pattern trees of depth <=2: literals, classes incl. negated/subtracted, \\d \\w \\s ., ? * + {n} {n,} {n,m}, alternation, groups; 1..2 start conditions; precedences), modes {runes, bytes} x {fold, no fold}; all texts of <=3 symbols (<=4 thorough) over an 11..12 symbol probe alphabet incl. multi-byte runes and invalid UTF-8", false,
 		"Compile", "compiler.addPattern", "compiler.compile", "compiler.serialize", "compressCharsets", "generator.addState", "generator.generate", "Tables.Scan")
 	r := vNewRand(vSeed() + 31)
